@@ -767,10 +767,18 @@ func NumProcs() int {
 // Now is the calling simulated process's wall clock.
 func Now() time.Time {
 	if p := CurProc(); p != nil {
-		return time.Now().Add(p.ClockOffset)
+		t := time.Now().Add(p.ClockOffset)
+		if p.SuspendFor > 0 {
+			// inside a bubble time.Now carries no monotonic reading; a private zone (UTC, prints
+			// the same) marks the value as "taken from this process's clock" for Since
+			t = t.In(monoLoc)
+		}
+		return t
 	}
 	return time.Now()
 }
+
+var monoLoc = time.FixedZone("UTC", 0)
 
 // Since is time.Since for the calling process: wall clock difference for a
 // time without monotonic reading (e.g. parsed from a lock file), else the
@@ -778,9 +786,12 @@ func Now() time.Time {
 func Since(t time.Time) time.Duration {
 	now := Now()
 	d := now.Sub(t)
-	if p := CurProc(); p != nil && p.SuspendFor > 0 && strings.Contains(t.String(), " m=") {
+	if p := CurProc(); p != nil && p.SuspendFor > 0 && t.Location() == monoLoc {
 		realNow := time.Now()
-		d -= p.suspendedBetween(realNow.Add(-d), realNow)
+		if ex := p.suspendedBetween(realNow.Add(-d), realNow); ex > 0 {
+			d -= ex
+			Probe("monotonic-since-excluded-standby")
+		}
 	}
 	return d
 }
